@@ -66,7 +66,7 @@ Judge(rec) ==
             ELSE IF rec.reset \/ ~rec.chained THEN (rec.req.kind # "migrate")
             ELSE frozen
         v ==    (IF care THEN StepClauses(rec.pre, rec.env, rec.req, rec.resp, rec.post) ELSE {})
-           \cup (IF care THEN StateClauses(rec.post, frozenNext /\ rec.chained) ELSE {})
+           \cup (IF care THEN StateClauses(rec.post, frozenNext /\ rec.chained, rec.native) ELSE {})
            \cup (IF care THEN Drift(rec) ELSE {})
            \cup (IF chained /\ ~rec.probe THEN If(rec.pre = st, "CHAIN.broken") ELSE {})
            \cup (IF rec.chained /\ ~rec.probe /\ care THEN If(shNext = ShadowOf(rec.post), "C17.shadow") ELSE {})
